@@ -188,6 +188,12 @@ def fmt_families(fmt, ops, attr_vals=None, star=False, abstract=True, extra=None
         'thorough': dict(consts=dict(N=4, MaxKids=2, MinHi=1, Axes={'ctc'}, MaxCtc=2, CtcDepth=1, CtcBinOps=ops, CtcMinFeatures=3, CtcGrow=2,
                                      Fmt=fmt), invariants=tlc.GEN_INVARIANTS, simulate=dict(num=4000, depth=9)),
     }
+    fams[fmt + '-Dup'] = {   # two constraints over two names: every pair, so also identical ones and ones equal up to the names' letter case
+        'quick':    dict(consts=dict(N=2, MaxKids=1, MinHi=1, Axes={'ctc'}, MaxCtc=2, CtcDepth=1, CtcBinOps={'IMPLIES'}, CtcMinFeatures=2,
+                                     Fmt=fmt), invariants=tlc.GEN_INVARIANTS, cap=500),
+        'thorough': dict(consts=dict(N=2, MaxKids=1, MinHi=1, Axes={'ctc'}, MaxCtc=2, CtcDepth=1, CtcBinOps={'IMPLIES', 'OR'}, CtcMinFeatures=2,
+                                     Fmt=fmt), invariants=tlc.GEN_INVARIANTS, cap=4000),
+    }
     if star:
         fams[fmt + '-Star'] = {
             'quick':    dict(consts=dict(N=4, MaxKids=3, MinHi=1, AllowStar=True, Fmt=fmt), invariants=tlc.GEN_INVARIANTS),
@@ -393,6 +399,12 @@ FAMILIES.update(edit_families('afm-', 'afm', ALL_OPS_NOT_XOR, abstract=False, q=
 FAMILIES.update(edit_families('fide-', 'fide', ALL_OPS_NOT_XOR, q=(500, 100)))
 FAMILIES.update(edit_families('glencoe-', 'glencoe', LOGIC_BIN, abstract=False, q=(500, 100)))
 FAMILIES.update(edit_families('C12-', ops=LOGIC_BIN, q=(60, 40), t=(400, 200)))
+FAMILIES['C12-Deep'] = {   # walks: constraints in the and/or/not fragment grown to depth 4 (what CNF conversion rewrites)
+    'quick':    dict(consts=dict(N=4, MaxKids=3, MinHi=1, Axes={'ctc'}, MaxCtc=1, CtcDepth=1, CtcBinOps={'AND', 'OR'}, CtcMinFeatures=4, CtcGrow=3),
+                     invariants=tlc.GEN_INVARIANTS, simulate=dict(num=150, depth=9), cap=80),
+    'thorough': dict(consts=dict(N=4, MaxKids=3, MinHi=1, Axes={'ctc'}, MaxCtc=2, CtcDepth=1, CtcBinOps={'AND', 'OR', 'IMPLIES'}, CtcMinFeatures=4, CtcGrow=3),
+                     invariants=tlc.GEN_INVARIANTS, simulate=dict(num=1500, depth=10), cap=500),
+}
 
 # Cross-format chains (x-<a>-<b>-*): models inside BOTH fragments; the harness writes and reads them
 # with format a, and the model reader a built is then the source of the write/read history of format b.
